@@ -433,6 +433,25 @@ def id_rule_after(cx: _Ctx, w: ops.World, op, pre: Pre, status, result):
             cx.bad(func, "ensures the node holds the new data", f"node {i} holds {node._data!r}, set_data passed {new!r}", node=i)
 
 
+def filter_ops(spec: gen.Spec):
+    """In-place filter (Tree.filter / Node.filter) with every keep-set of nodes as predicate."""
+    n = len(spec.nodes)
+    for p in [-1] + list(range(n)):
+        for mask in range(2**n):
+            yield ("filter", p, mask)
+
+
+def _apply(w: ops.World, op):
+    if op[0] != "filter":
+        return ops.apply_real(w, op)
+    _, p, mask = op
+    keep = {id(n) for i, n in enumerate(w.nodes) if mask >> i & 1}
+    try:
+        return "ok", w.rt(p).filter(lambda node: id(node) in keep)
+    except Exception as e:  # noqa: BLE001
+        return "exc", e
+
+
 def check_after_op(prop, w: ops.World, op, wit) -> list[Violation]:
     """Apply `op` to the real tree of `w` and evaluate all clauses on the result."""
     cx = _Ctx(prop, wit, {})
@@ -442,7 +461,7 @@ def check_after_op(prop, w: ops.World, op, wit) -> list[Violation]:
     signal.signal(signal.SIGALRM, _on_alarm)
     signal.setitimer(signal.ITIMER_REAL, 20.0)
     try:
-        status, result = ops.apply_real(w, op)
+        status, result = _apply(w, op)
     except _Timeout:
         return []  # non-termination of a mutator is C01/C13's finding, not a lookup clause
     finally:
@@ -626,12 +645,14 @@ def run(prop: str, tier: str, only=None) -> Result:
         "probes: every label present or absent as data object (same object, fresh equal object, other DictWrapper of the same / of a copied dict, "
         "other Keyed object with the same key), as data_id (hash / key / explicit ids / 0 / absent ids), every node_id and absent node_ids; max_results = 1..len+1"
     )
-    dyn = [(fl, sp, op) for fl, specs in _dyn_items(tier).items() for sp in specs for op in ops.enum_ops(sp, GROUPS)]
+    dyn_specs = _dyn_items(tier)
+    dyn = [(fl, sp, op) for fl, specs in dyn_specs.items() for sp in specs for op in ops.enum_ops(sp, GROUPS)]
+    dyn += [("str", sp, op) for sp in dyn_specs["str"] for op in filter_ops(sp)]
     total.merge(parallel(_dyn_chunk, dyn, prop, prop=prop))
     total.bounds["lookups after one mutating operation (dynamic)"] = (
         f"str: all forests with <= {3 if quick else 4} nodes x {{a,b,c}}, equal-data pairs <= {3 if quick else 4} nodes, explicit-id trees <= {2 if quick else 3} nodes; "
         f"other flavours: forests <= {2 if quick else 3} nodes x {{a,b}}, explicit-id trees <= {1 if quick else 2} nodes; "
-        f"every operation of ops.enum_ops groups {GROUPS} (accepted or refused), same probes as the static part, also on the second tree of cross-tree operations"
+        f"every operation of ops.enum_ops groups {GROUPS} (accepted or refused) and in-place filter() from the tree / every node with every keep-set as predicate (str), same probes as the static part, also on the second tree of cross-tree operations"
     )
     n_hist, length = (1500, 6) if quick else (20000, 8)
     base = seed() * 1_000_003 + 2
